@@ -206,14 +206,13 @@ def all_defs(spec):
 
 
 def import_specs(spec):
-    """the imports of the package as documented: an aliased import is the pair (package, alias) - written twice it
-    is still one import; bare-tag imports are listed as written"""
+    """the imports of the package as documented: an aliased import is the pair (package, alias), a bare-tag import
+    is the package - written twice it is still one import"""
     seen, out = set(), []
     for i in spec["imports"]:
-        if i["alias"]:
-            if (i["pkg"], i["alias"]) in seen:
-                continue
-            seen.add((i["pkg"], i["alias"]))
+        if (i["pkg"], i["alias"]) in seen:
+            continue
+        seen.add((i["pkg"], i["alias"]))
         out.append(i)
     return out
 
@@ -446,13 +445,17 @@ def k_pkg_same_pair_twice(P, c):
 
 
 def k_pkg_root_twice(P, c):
-    """the same package as a bare-tag import twice: one definition reachable by one name, written twice - the
-    property sentence does not decide (the oracle accepts both outcomes), the model must predict what happens"""
+    """the same package as a bare-tag import twice (two files or one block), possibly a third time and under an alias
+    too: one import (commit 4a102aa), accepted, each name once"""
     i, w = _pkg_with_funcs(P, "", file=0)
     P.imp("", again=i, file=P.rng.choice([0, 1]))
+    if P.rng.random() < 0.3:
+        P.imp("", again=i, file=1)
     if P.rng.random() < 0.5:
         P.imp(P.ial(), again=i)
-    P.local("", rcase(P.rng, P.word()))
+    _decorate(P, i)
+    if c:
+        P.local("", rcase(P.rng, w))
 
 
 PLAIN_DECOYS = ["bad_param", "bad_param_slice", "bad_result", "two_results", "unexported", "non_ns_method", "test_file", "tagged_out"]
@@ -576,6 +579,7 @@ KINDS = [("fn_case", k_fn_case), ("method_case", k_method_case), ("namespace_cas
          ("alias_vs_method", k_alias_vs_method), ("import_alias_colon", k_import_alias_colon),
          ("pkg_two_aliases", k_pkg_two_aliases), ("pkg_root_and_alias", k_pkg_root_and_alias),
          ("pkg_three_aliases", k_pkg_three_aliases), ("pkg_same_pair_twice", k_pkg_same_pair_twice),
+         ("pkg_root_twice", k_pkg_root_twice),
          ("decoys", k_decoys), ("decoy_across", k_decoy_across),
          ("imported_aliases", k_imported_aliases), ("named_import_same_names", k_named_import_same_names)]
 
@@ -723,7 +727,22 @@ def h_decoy_import(P):           # the imported package gains a NON-target spell
     return None, False
 
 
-HISTORIES = [("imp:root_vs_local", h_root_vs_local), ("imp:alias_vs_imported", h_alias_vs_imported),
+def h_constraint_lifted(P):
+    """a file of the imported package is excluded by a build constraint and holds a function spelled like a local
+    target (or like nothing else); the constraint is removed by rewriting the file IN PLACE: the function becomes a
+    target - a collision (or a new runnable name)"""
+    w = P.word()
+    P.local("", rcase(P.rng, w))
+    i = P.imp(P.rng.choice(["", "", P.ial()]), file=0)
+    i["tag"] = i["alias"]
+    P.itgt(i, "", rcase(P.rng, P.word()))
+    collides = i["alias"] == "" and P.rng.random() < 0.7
+    ident_ = P.itgt(i, "", rcase(P.rng, w) if collides else rcase(P.rng, P.word()))
+    i["tgts"][-1]["file"] = "zz_excluded.go"
+    return ident_, collides
+
+
+HISTORIES = [("imp:constraint_lifted", h_constraint_lifted), ("imp:root_vs_local", h_root_vs_local), ("imp:alias_vs_imported", h_alias_vs_imported),
              ("imp:two_imports_one_alias", h_two_imports_one_alias), ("imp:import_internal", h_import_internal),
              ("mage:local_case", h_local_case), ("mage:local_vs_root", h_local_vs_root), ("imp:decoy", h_decoy_import)]
 
@@ -737,6 +756,10 @@ def history(rng, name, hk, fn):
     b = P.spec
     if ident_ is not None:
         a = _drop(b, ident_)
+        for ib, ia in zip(b["imports"], a["imports"]):
+            for t in ib["tgts"]:
+                if t["id"] == ident_ and t.get("file"):      # before the edit the function sits behind a build constraint
+                    ia.setdefault("decoys", []).append({"kind": "tagged_out", "recv": "", "name": t["name"]})
     else:
         a = copy.deepcopy(b)
         a["decoys"] = []
@@ -787,11 +810,6 @@ def generate(rng, reps, soups, hists=1):
             P.finish()
             choose_words(P)
             specs.append([P.spec])
-        P = Proj(rng, name(), "pkg_root_twice", None)
-        k_pkg_root_twice(P, None)
-        P.finish()
-        choose_words(P)
-        specs.append([P.spec])
     for rep in range(hists):
         for hk, fn in HISTORIES:
             specs.append(history(rng, name(), hk, fn))
@@ -918,7 +936,7 @@ def render(spec):
         done.add(i["pkg"])
         s = "package %s\n\n" % i["pkg"]
         im = []
-        if i["tgts"]:
+        if any(not t.get("file") for t in i["tgts"]):
             im.append('\t"%s/probe"\n' % mod)
         if _needs_mg(i["tgts"], i.get("decoys", ())):
             im.append('\t"github.com/magefile/mage/mg"\n')
@@ -929,9 +947,12 @@ def render(spec):
             s += "var Aliases = map[string]interface{}{\n" + "".join("\t%s: %s,\n" % (_goq(a["key"]), byid[a["ref"]]) for a in i["own_aliases"] if a["ref"] in byid) + "}\n\n"
         if i.get("own_default") in byid:
             s += "var Default = %s\n\n" % byid[i["own_default"]]
-        s += _decls(i["tgts"], i.get("decoys", ()))
+        s += _decls([t for t in i["tgts"] if not t.get("file")], i.get("decoys", ()))
         files["imp/%s/%s.go" % (i["pkg"], i["pkg"])] = s
         files.update(_side_files(i["pkg"], i.get("decoys", ()), "imp/%s/" % i["pkg"], ""))
+        for fn_ in sorted(set(t["file"] for t in i["tgts"] if t.get("file"))):      # a file whose constraint was lifted
+            files["imp/%s/%s" % (i["pkg"], fn_)] = 'package %s\n\nimport (\n\t"%s/probe"\n)\n\n' % (i["pkg"], mod) + \
+                _decls([t for t in i["tgts"] if t.get("file") == fn_])
     return files
 
 
